@@ -18,6 +18,9 @@ var baseCorpus = []string{
 	"select key, int(value) + 1 where key in ('k1', 'k2', 'k3') & is_int(value)",
 	"select count(1), sum(int(value)) as sum, substr(key, 0, 2) as kprefix where key between 'k' and 'l' group by kprefix order by sum desc",
 	"select key, json(value)['x']['y'] where key ^= 'k' & int(json(value)['test']) >= 1",
+	"select a + 1 as b, b + 1 as a where key ^= 'k'",
+	"select upper(u) as u, lower(u) as l where key = 'k1' | l = 'x'",
+	"select int(value) + z as x, x * 2 as y, y - 1 as z where key ^= 'k' & x > 0",
 	"select key, json(value)['list'][1] where key ^= 'k'",
 	"select key, int(value) as f1 where f1 > 10",
 	"select key, split(value, ',') as f1 where 'a' in f1",
